@@ -346,46 +346,69 @@ func checkC06(w *World, r *Report) {
 // ruleHeapIndex: Push sets index = len, Swap keeps both indices, Pop marks -1 and returns the last element.
 func ruleHeapIndex(w *World, r *Report, pfx string) {
 	rule := pfx + ".O-INDEX"
-	if sw := w.Func("mpb.(priorityQueue).Swap"); sw != nil && len(sw.Blocks) == 1 {
+	if sw := w.Func("mpb.(priorityQueue).Swap"); sw != nil {
 		i, j := ssa.Value(sw.Params[1]), ssa.Value(sw.Params[2])
-		// symbolic execution of the single block over the two slots: slot -> which original element it holds
+		// symbolic execution of every path (private helpers inlined) over the two slots: slot -> which original element it holds
 		const (
 			origI = 1
 			origJ = 2
 		)
-		slot := map[ssa.Value]int{i: origI, j: origJ} // current content of pq[i], pq[j]
-		loaded := map[ssa.Value]int{}                 // loaded *Bar value -> original element
-		index := map[int]ssa.Value{}                  // original element -> last index stored into it
-		okShape := true
-		for _, in := range sw.Blocks[0].Instrs {
-			switch x := in.(type) {
-			case *ssa.UnOp:
-				if x.Op == token.MUL {
-					if ia, ok := x.X.(*ssa.IndexAddr); ok && (ia.Index == i || ia.Index == j) {
-						loaded[x] = slot[ia.Index]
+		type vkey struct {
+			v ssa.Value
+			f *Frame
+		}
+		ok := true
+		nP, over := w.enumPaths(sw, pathOpts{InlineDepth: 2, Inline: w.helperInline(sw)}, func(p *Path) {
+			if p.Exit != "return" {
+				ok = false
+				return
+			}
+			slot := map[ssa.Value]int{i: origI, j: origJ} // current content of pq[i], pq[j]
+			loaded := map[vkey]int{}                      // loaded *Bar value -> original element
+			index := map[int]ssa.Value{}                  // original element -> last index stored into it
+			okShape := true
+			which := func(ev Event, idx ssa.Value) (ssa.Value, bool) {
+				r := p.stripR(p.val(ev, idx)).V
+				return r, r == i || r == j
+			}
+			for _, ev := range p.Events {
+				switch x := ev.In.(type) {
+				case *ssa.UnOp:
+					if x.Op == token.MUL {
+						if ia, isIA := x.X.(*ssa.IndexAddr); isIA {
+							if k, isK := which(ev, ia.Index); isK {
+								loaded[vkey{x, ev.F}] = slot[k]
+							}
+						}
 					}
-				}
-			case *ssa.Store:
-				if ia, ok := x.Addr.(*ssa.IndexAddr); ok && (ia.Index == i || ia.Index == j) {
-					if e, ok := loaded[x.Val]; ok {
-						slot[ia.Index] = e
-					} else {
-						okShape = false
+				case *ssa.Store:
+					if ia, isIA := x.Addr.(*ssa.IndexAddr); isIA {
+						if k, isK := which(ev, ia.Index); isK {
+							sv := p.R(p.val(ev, x.Val))
+							if e, found := loaded[vkey{sv.V, sv.F}]; found {
+								slot[k] = e
+							} else {
+								okShape = false
+							}
+							continue
+						}
 					}
-					continue
-				}
-				if f, ok := fieldOf(x.Addr); ok && f.Owner == tBar && f.Name == "index" {
-					if e, ok := loaded[f.Base]; ok {
-						index[e] = x.Val
-					} else {
-						okShape = false
+					if f, isF := fieldOf(x.Addr); isF && f.Owner == tBar && f.Name == "index" {
+						bv := p.R(p.val(ev, f.Base))
+						if e, found := loaded[vkey{bv.V, bv.F}]; found {
+							index[e] = p.stripR(p.val(ev, x.Val)).V
+						} else {
+							okShape = false
+						}
 					}
 				}
 			}
-		}
-		// afterwards: pq[i] holds the original j with index i, pq[j] the original i with index j
-		ok := okShape && slot[i] == origJ && slot[j] == origI && index[origJ] == i && index[origI] == j
-		r.Check(ok, rule, "priorityQueue.Swap", w.pos(sw.Pos()), "elements exchanged, both heap indices updated", "Swap does not exchange the two bars and record their new indices: heap.Fix / UpdateBarPriority would act on the wrong element")
+			// afterwards: pq[i] holds the original j with index i, pq[j] the original i with index j
+			if !(okShape && slot[i] == origJ && slot[j] == origI && index[origJ] == i && index[origI] == j) {
+				ok = false
+			}
+		})
+		r.Check(ok && nP > 0 && !over, rule, "priorityQueue.Swap", w.pos(sw.Pos()), "elements exchanged, both heap indices updated", "Swap does not exchange the two bars and record their new indices: heap.Fix / UpdateBarPriority would act on the wrong element")
 	}
 	if pu := w.Func("mpb.(*priorityQueue).Push"); pu != nil {
 		ok := false
